@@ -1,6 +1,6 @@
 SPECIFICATION Spec
 CONSTANTS
-  MaxOps = 8
+  MaxOps = 10
   LongFollows = TRUE
   LongMark = TRUE
   DimFollows = TRUE
